@@ -21,6 +21,29 @@ fn make_doc(text: &str, lang: &str) -> Document {
     }
 }
 
+/// curated + user words of many lengths that share prefixes (technical vocabulary)
+pub const USER_WORDS: [&str; 14] = ["autograd", "autodiff", "reparameterization", "reparam", "hyperparameterisations", "hyperopt", "backprop",
+    "backpropagating", "tokenizer", "tokenizations", "embeddingbag", "embed", "qwertzuiopasdfgh", "zx"];
+fn user_dict() -> std::sync::Arc<harper_core::MergedDictionary> {
+    use harper_core::{MergedDictionary, MutableDictionary, WordMetadata};
+    static D: std::sync::OnceLock<std::sync::Arc<MergedDictionary>> = std::sync::OnceLock::new();
+    D.get_or_init(|| {
+        let mut user = MutableDictionary::new();
+        user.extend_words(USER_WORDS.iter().map(|w| (w.chars().collect::<Vec<char>>(), WordMetadata::default())));
+        let mut m = MergedDictionary::new();
+        m.add_dictionary(FstDictionary::curated());
+        m.add_dictionary(std::sync::Arc::new(user));
+        std::sync::Arc::new(m)
+    }).clone()
+}
+fn make_doc_user(text: &str, lang: &str) -> Document {
+    let dict = user_dict();
+    match lang {
+        "md" => Document::new(text, &Markdown::default(), &dict),
+        _ => Document::new(text, &PlainEnglish, &dict),
+    }
+}
+
 /// (digest of the chunk's characters, digest of its tokens relative to the chunk start)
 fn chunk_keys(doc: &Document) -> Vec<Value> {
     let mut v = Vec::new();
@@ -51,9 +74,14 @@ pub fn config_by_id(id: usize, names: &[String]) -> LintGroupConfig {
 
 /// The reference: a linter that has never linted anything, on a thread that has never linted anything
 /// (thread-local caches are part of "what the instance checked before").
-fn fresh_lints(text: &str, lang: &str, cfg: &LintGroupConfig, dialect: Dialect) -> Vec<Lint> {
+fn fresh_lints(text: &str, lang: &str, cfg: &LintGroupConfig, dialect: Dialect) -> Vec<Lint> { fresh_lints_d(text, lang, cfg, dialect, false) }
+fn fresh_lints_d(text: &str, lang: &str, cfg: &LintGroupConfig, dialect: Dialect, user: bool) -> Vec<Lint> {
     let (text, lang, cfg) = (text.to_string(), lang.to_string(), cfg.clone());
     let h = std::thread::Builder::new().stack_size(16 << 20).spawn(move || {
+        if user {
+            let mut lg = LintGroup::new_curated(user_dict(), dialect).with_lint_config(cfg);
+            return lg.lint(&make_doc_user(&text, &lang));
+        }
         let mut lg = LintGroup::new_curated(FstDictionary::curated(), dialect).with_lint_config(cfg);
         lg.lint(&make_doc(&text, &lang))
     }).unwrap();
@@ -63,7 +91,9 @@ fn fresh_lints(text: &str, lang: &str, cfg: &LintGroupConfig, dialect: Dialect) 
 /// One session on one long-lived LintGroup: ops are ("cfg", id) | ("lint", text, lang)
 pub fn session(ops: &[(String, usize, String, String)], names: &[String], dialect: Dialect, tag: &str) -> Vec<Value> {
     let mut evs = vec![json!({"ev": "Reset", "src": tag})];
-    let mut lg = LintGroup::new_curated(FstDictionary::curated(), dialect);
+    // sessions tagged "user" run with the merged dictionary (curated + user words)
+    let user = tag == "user";
+    let mut lg = if user { LintGroup::new_curated(user_dict(), dialect) } else { LintGroup::new_curated(FstDictionary::curated(), dialect) };
     let mut cfg_id = 0usize;
     for (kind, id, text, lang) in ops {
         if kind == "cfg" {
@@ -74,13 +104,13 @@ pub fn session(ops: &[(String, usize, String, String)], names: &[String], dialec
         }
         let before = harper_core::linting::lint_group_verif::counters();
         let r = catch(|| {
-            let doc = make_doc(text, lang);
+            let doc = if user { make_doc_user(text, lang) } else { make_doc(text, lang) };
             let keys = chunk_keys(&doc);
             (lg.lint(&doc), keys)
         });
         let after = harper_core::linting::lint_group_verif::counters();
         let cfg = lg.config.clone();
-        let f = catch(|| fresh_lints(text, lang, &cfg, dialect));
+        let f = catch(|| fresh_lints_d(text, lang, &cfg, dialect, user));
         match (r, f) {
             (Ok((reused, keys)), Ok(fresh)) => {
                 evs.push(json!({"ev": "Lint", "text": text, "lang": lang, "cfg": cfg_id, "chunks": keys,
@@ -95,7 +125,7 @@ pub fn session(ops: &[(String, usize, String, String)], names: &[String], dialec
                 let pb = b.is_err();
                 evs.push(json!({"ev": "LintPanic", "text": text, "lang": lang, "cfg": cfg_id, "reused_panicked": pa, "fresh_panicked": pb}));
                 if pa {
-                    lg = LintGroup::new_curated(FstDictionary::curated(), dialect);
+                    lg = if user { LintGroup::new_curated(user_dict(), dialect) } else { LintGroup::new_curated(FstDictionary::curated(), dialect) };
                     lg.config = config_by_id(cfg_id, names);
                     evs.push(json!({"ev": "Reset", "src": tag}));
                     evs.push(json!({"ev": "SetCfg", "cfg": cfg_id}));
@@ -227,6 +257,26 @@ pub fn c05(a: &Args) {
                 }
             }
             sessions.push((ops, i % 4, "context"));
+        }
+    }
+    // user-dictionary histories: unknown words that are typos of user words, or that start like one and run on for a
+    // few more letters, in sequences on one thread (whatever the fuzzy search over the user's words leaves behind on a
+    // thread - scratch rows, automata - must not change what a later document gets)
+    {
+        let letters: Vec<char> = "abcdefghijklmnopqrstuvwxyz".chars().collect();
+        for i in 0..a.num("user-histories", 80) as usize {
+            let mut ops: Vec<(String, usize, String, String)> = Vec::new();
+            for _ in 0..rng.range(4, 8) {
+                let w: Vec<char> = rng.pick(&USER_WORDS[..]).chars().collect();
+                let unknown: String = match rng.below(3) {
+                    0 => { let mut t = w.clone(); let p = rng.below(t.len()); if t.len() > 3 && rng.chance(1, 2) { t.remove(p); } else { t[p] = *rng.pick(&letters[..]); } t.iter().collect() }
+                    _ => { let keep = rng.range(2, w.len().min(8)).min(w.len()); let extra = (w.len() - keep) + rng.range(2, 4);
+                           w[..keep].iter().cloned().chain((0..extra).map(|_| *rng.pick(&letters[..]))).collect() }
+                };
+                let text = match rng.below(3) { 0 => format!("We train a small {unknown} first."), 1 => format!("The {unknown} trick keeps the gradient."), _ => unknown };
+                ops.push(("lint".to_string(), 0, text, if rng.chance(1, 4) { "md".into() } else { "plain".into() }));
+            }
+            sessions.push((ops, i % 4, "user"));
         }
     }
     // glue families: one clause behind different endings of what precedes it (paragraph break, line break,
